@@ -27,7 +27,13 @@ FILE[sarsal_trace_not_reset]=src/MDP/Algorithms/SARSAL.cpp
 SED[sarsal_trace_not_reset]='s|el = 1.0;|el += 1.0;|'
 FILE[ps_abs_dropped]=include/AIToolbox/MDP/Algorithms/PrioritizedSweeping.hpp
 SED[ps_abs_dropped]='s|p = std::fabs(values\[s\] - p);|p = values[s] - p;|'
-names=("$@"); [ ${#names[@]} -eq 0 ] && names=(ql_sign trace_decay_twice ps_threshold swap_pop_skip eps_not_divided retrace_no_min esarsa_wrong_state dq_same_table hyst_swapped sarsal_trace_not_reset ps_abs_dropped)
+FILE[ps_min_heap]=include/AIToolbox/MDP/Algorithms/PrioritizedSweeping.hpp
+SED[ps_min_heap]='s|return priority < arg2.priority;|return priority > arg2.priority;|'
+FILE[dyna2_traces_not_shared]=include/AIToolbox/MDP/Algorithms/Dyna2.hpp
+SED[dyna2_traces_not_shared]='s|transientLearning_.setTraces(permanentLearning_.getTraces());|;|'
+FILE[dynaq_batch_wrong_pair]=include/AIToolbox/MDP/Algorithms/DynaQ.hpp
+SED[dynaq_batch_wrong_pair]='s|^            qLearning_.stepUpdateQ(s, a, s1, rew);|            qLearning_.stepUpdateQ(s1, a, s1, rew);|'
+names=("$@"); [ ${#names[@]} -eq 0 ] && names=(ql_sign trace_decay_twice ps_threshold swap_pop_skip eps_not_divided retrace_no_min esarsa_wrong_state dq_same_table hyst_swapped sarsal_trace_not_reset ps_abs_dropped ps_min_heap dyna2_traces_not_shared dynaq_batch_wrong_pair)
 for m in "${names[@]}"; do
   git -C "$R" checkout -- . 
   sed -i "${SED[$m]}" "$R/${FILE[$m]}"
